@@ -58,6 +58,12 @@ Rules5 ==
       Tok   |-> Class(<<Field("w", WordRx), Field("mark", Opt(Ref("Prev"))), Field("rest", Opt(Rgx(Cls(<<a, b>>))))>>),
       Prev  |-> Class(<<PassM(Back(1))>>) ]
 
+(* instances that are reachable only through a dict built by inline Python:  (Ent /? ";") |> `dict`  *)
+Rules6 ==
+    [ start |-> Rule(Apply(SepTrailer(Ref("Ent"), Str(<<59>>)), Py(<<"fn", "dict">>))),
+      Ent   |-> Rule(Seq2(Left(WordRx, Str(<<61>>)), Ref("Word"))),
+      Word  |-> Class(<<Field("w", WordRx)>>) ]
+
 CR == 13          \* a carriage return is ignorable text here, but it is NOT a line break (only NL is)
 Ign == <<Rgx(RxPlus(Cls(<<sp, NL, CR>>)))>>
 
@@ -69,12 +75,14 @@ Grammar(i) ==
       [] i = 5 -> [rules |-> Rules3, ign |-> Ign, start |-> "start"]
       [] i = 6 -> [rules |-> Rules4, ign |-> <<>>, start |-> "start"]
       [] i = 7 -> [rules |-> Rules5, ign |-> <<>>, start |-> "start"]
+      [] i = 8 -> [rules |-> Rules6, ign |-> Ign, start |-> "start"]
 
 Entries(i) == CASE i \in {1, 2} -> <<"start", "Item", "Group">>
                 [] i \in {3, 4} -> <<"start", "A">>
                 [] i = 5 -> <<"start", "T">>
                 [] i = 6 -> <<"start", "H">>
                 [] i = 7 -> <<"start", "Tok">>
+                [] i = 8 -> <<"start">>
 
 N == IF Tier = "quick" THEN 4 ELSE 5
 Texts(i) ==
@@ -82,7 +90,9 @@ Texts(i) ==
       [] i = 2 -> TextSeqUpTo(<<a, plus, CR, NL>>, N)
                   \o << <<a, NL, plus, NL, NL, b, sp, lpar, NL, a, rpar, NL>>, <<sp, a, sp, plus, sp, b, sp>>,
                         <<a, CR, NL, b, plus, a, CR, NL, a, b>>, <<a, CR, b, CR, CR, a, NL, b>>,
-                        <<lpar, sp, a, NL, sp, b, rpar, sp, a>> >>
+                        <<lpar, sp, a, NL, sp, b, rpar, sp, a>>,
+                        \* U+FEFF is a character like any other (no rule matches it): nothing can be parsed at offset 0
+                        <<65279, a, plus, b>>, <<65279, sp, a, NL, b>> >>
       [] i = 3 -> TextSeqUpTo(<<a, b>>, N + 1)
       [] i = 4 -> TextSeqUpTo(<<a, b, sp, NL>>, N) \o << <<b, NL, a, sp, b, NL, a, NL>> >>
       [] i = 5 -> TextSeqUpTo(<<a, plus, sp, NL>>, N)
@@ -90,12 +100,14 @@ Texts(i) ==
                         <<lpar, lpar, a, rpar, rpar>>, <<lpar, a, plus, b, rpar, plus, a>>, <<sp, lpar, NL, a, NL, rpar, NL>>,
                         <<a, plus, lpar, b, rpar>>, <<lpar, a>> >>
       [] i = 7 -> TextSeqUpTo(<<a, b, sp>>, N)
+      [] i = 8 -> TextSeqUpTo(<<a, 61, 59>>, N + 1)
+                  \o << <<a, 61, b, 59, b, 61, a, a>>, <<a, sp, 61, NL, b, sp, 59, NL, b, 61, a, 59, sp>>, <<a, 61, b, 59, a, 61, a>> >>
       [] i = 6 -> TextSeqUpTo(<<a, sp, NL>>, N + 1) \o << <<a, b, NL, NL, b, a, sp, a>>, <<a, sp, NL, sp, b, b, NL>> >>
 
 VARIABLES gi, en, done
 vars == <<gi, en, done>>
 
-Init == gi \in 1..7 /\ en \in 1..Len(Entries(gi)) /\ done = FALSE
+Init == gi \in 1..8 /\ en \in 1..Len(Entries(gi)) /\ done = FALSE
 
 RunF(G, entry, txt, p) ==
     LET r == EvalEntry(G, entry, txt, p) IN <<entry, txt, p, r.t, Finalize(r.v, txt), r.e, r.far>>
